@@ -210,7 +210,7 @@ class CouplingSimulation:
 
     def coupling_states_for_a_slice(self, slice_fine_states):
         """Apply the coupling for an array of states of the fine process"""
-        if slice_fine_states:
+        if len(slice_fine_states):
             slice_coupling_values = np.empty(shape=len(slice_fine_states), dtype=float)
             current_value = self.coupling_process.grid.origin
             for k, deltaFineState in enumerate(slice_fine_states):
@@ -249,7 +249,7 @@ class CouplingSimulationFixedTimes(CouplingSimulation):
         for k, (slice_fine_states, slice_fine_values) in enumerate(
             zip(fine_states_increments, fines_states_all_values)
         ):
-            if slice_fine_states:
+            if len(slice_fine_states):
                 slice_coarse_values = self.coupling_states_for_a_slice(
                     slice_fine_states
                 )
@@ -315,7 +315,7 @@ class CouplingSimulationWithJumpTimes(CouplingSimulation):
         for k, (slice_fine_states, slice_fine_values) in enumerate(
             zip(fine_states_increments, fine_states_all_values)
         ):
-            if slice_fine_states:
+            if len(slice_fine_states):
                 slice_coarse_values = self.coupling_states_for_a_slice(
                     slice_fine_states
                 )
